@@ -115,7 +115,13 @@ func NewReport(property string) *Report {
 	if os.Getenv("GOMEMLIMIT") == "" {
 		// GOGC=800 lets the heap grow to nine times the live data; the soft limit makes the collector work harder
 		// long before a harness with a few GiB of live data (exact de-duplication sets) fills the machine.
-		debug.SetMemoryLimit(12 << 30)
+		limit := int64(12 << 30)
+		if _, n := Shard(); n > 1 {
+			// shard workers run side by side: together they get what one unsharded harness gets, and never
+			// less than 1 GiB each
+			limit = max(limit/int64(n), 1<<30)
+		}
+		debug.SetMemoryLimit(limit)
 	}
 	return &Report{
 		Property: property, Tier: tier, Seed: seed, Level: "model_checking",
